@@ -146,10 +146,12 @@ Definition call_ret_ok (tmo : list Z) (l : log) (i : nat) : bool :=
 Definition overlaps (l : log) (i j : nat) : bool :=
   before (find_pos (is_call j) l) (find_pos (is_ret i) l)
   && negb (before (find_pos (is_end j) l) (find_pos (is_call i) l)).
-Definition fail_ok (n : nat) (l : log) (i : nat) : bool :=
+Definition fail_ok (n : nat) (tmo : list Z) (l : log) (i : nat) : bool :=
   match find_pos (is_fail i) l with
   | None => true
-  | Some _ => existsb (fun j => negb (Nat.eqb i j) && overlaps l i j) (seq 0 n)
+  | Some _ =>
+      (* a call made on an already-cancelled caller context (effective time-out 0) fails by itself *)
+      Z.leb (nth i tmo 0) 0 || existsb (fun j => negb (Nat.eqb i j) && overlaps l i j) (seq 0 n)
   end.
 
 (* every contender's own events are in protocol order *)
@@ -172,7 +174,7 @@ Fixpoint proto_scan (l : log) (i : nat) (st : nat) : bool :=
 
 Definition c18_ok (n : nat) (tmo : list Z) (l : log) : bool :=
   mutex_ok l
-  && forallb (fun i => proto_scan l i 0 && call_ret_ok tmo l i && fail_ok n l i) (seq 0 n).
+  && forallb (fun i => proto_scan l i 0 && call_ret_ok tmo l i && fail_ok n tmo l i) (seq 0 n).
 
 (* ---- C19 ---- *)
 (* A holder i "lost" its lock when an ELose i event lies inside its critical
